@@ -26,7 +26,7 @@ ID = "C17"
 LEVEL = "model_checking"
 ENGINE = "E2 parse-history enumeration in forked pristine images + E4 preemption-bounded thread schedules"
 RULE = (
-    "E2: every sequence of <= D parses over a 34-text corpus, each sequence in a process forked from a pristine parent, every "
+    "E2: every sequence of <= D parses over a 36-text corpus, each sequence in a process forked from a pristine parent, every "
     "parse compared with the fresh-interpreter baseline of its text. E4: ordered pairs of corpus texts x {pristine, warm process image} "
     "x both start orders x EVERY switch point (preemption bound 1; thorough adds opcode granularity and bound 2 at call "
     "granularity); distinct = distinct history or distinct (pair, configuration, schedule); non-trivial = history of >= 2 parses "
@@ -91,6 +91,10 @@ CORPUS = {
     "sp-skip": (mk(res=12, sync=SYNC, events=EV, tracks={"ExpertSingle": ["0 = S 2 3", "8 = S 2 3", "16 = S 2 3", "0 = N 0 0", "1 = N 1 0", "5 = N 2 0", "16 = N 0 0", "17 = N 1 0"]}), None),
     "sp-all": (mk(res=12, sync=SYNC, events=EV, tracks={"ExpertSingle": ["0 = S 2 3", "8 = S 2 3", "16 = S 2 3", "0 = N 0 0", "1 = N 1 0", "8 = N 2 0", "9 = N 3 0", "16 = N 0 0", "17 = N 1 0"]}), None),
     "sp-late": (mk(res=12, sync=SYNC, events=EV, tracks=[("ExpertSingle", ["0 = S 2 3", "8 = S 2 3", "16 = S 2 3", "5 = N 0 0", "17 = N 1 0"]), ("HardSingle", ["0 = S 2 0", "0 = S 2 2", "1 = N 1 0"])]), None),
+    # fails inside [Song] AFTER Resolution and other fields were decoded (an unknown Player2 member); the texts after
+    # it that lack those fields must still get the documented defaults
+    "fail-in-song": (mk(res=12, song_extra=["Offset = 7", "Difficulty = 5", "PreviewStart = 9", 'Name = "dead"', "Player2 = drums"], sync=SYNC, events=EV, tracks={"ExpertSingle": T_S}), None),
+    "fail-in-song-2": (mk(res=12, song_extra=["Player2 = rhythm", "Offset = 3", "PreviewEnd = " + "9" * 4400], sync=SYNC, events=EV, tracks={"ExpertSingle": T_S}), None),
     # tempo maps of 11 events at different ticks (fast paths for long maps, tables built per map)
     "long-a": (mk(res=12, sync=["0 = TS 4"] + ["%d = B %d" % (5 * i, 120000 + 1000 * i) for i in range(11)], events=EV[:1], tracks={"ExpertSingle": ["%d = N %d %d" % (13 * i + 1, i % 5, 3) for i in range(4)]}), None),
     "long-b": (mk(res=12, sync=["0 = TS 4"] + ["%d = B %d" % (3 * i * i, 90000 + 500 * i) for i in range(11)], events=EV[:1], tracks={"ExpertSingle": ["%d = N %d %d" % (70 * i + 2, (i + 1) % 5, 7) for i in range(4)]}), None),
